@@ -22,7 +22,7 @@ from .corpus import CORPUS
 from .tok import Decl
 
 PROP = "C05"
-CORPUS_GRAMMARS = ["g1", "g2", "p1", "p2", "p3", "c1", "c2", "c3", "o1", "o2", "a1", "a2", "a3", "j1", "k1", "k2", "v2", "kc", "k3", "k4"]
+CORPUS_GRAMMARS = ["g1", "g2", "p1", "p2", "p3", "c1", "c2", "c3", "o1", "o2", "a1", "a2", "a3", "j1", "k1", "k2", "v2", "kc", "k3", "k4", "o3", "a4", "g4"]
 LEMMAS = ["remove", "set_scope", "take_flag", "take_arg", "take_arg_adjacent", "take_pos", "take_cmd"]
 WRAPS = ["optional", "optional_catch", "many", "some", "count", "last", "fallback", "fallback_with"]
 LOOPS = ("many", "some", "count", "last")
@@ -477,9 +477,8 @@ def make_jobs(tier, seed, build):
     nc = 3 if tier == "quick" else 4
     for gname in CORPUS_GRAMMARS:
         g = CORPUS[gname]
-        for n in range(0, nc + 1):
-            for sh in tok.all_shapes(n, g.decl):
-                jobs.append({"id": "corpus:%s:%s" % (gname, ",".join(sh)), "kind": "corpus", "grammar": gname, "shape": sh, "fs": "none"})
+        for sh in tok.all_shapes_by_words(nc, g.decl):
+            jobs.append({"id": "corpus:%s:%s" % (gname, ",".join(sh)), "kind": "corpus", "grammar": gname, "shape": sh, "fs": "none"})
     return jobs
 
 
@@ -498,7 +497,7 @@ def finish(results, jobs, build, out, tier, seed, wall):
     cj = [j for j in jobs if j["kind"] == "corpus"]
     nc = 3 if tier == "quick" else 4
     ev = finish_tok(PROP, corpus_res, cj, build, out, tier, seed, wall, CorpusOracle(), CORPUS,
-                    {"corpus_items": "0..=%d" % nc, "lemma_items": "0..=%d" % (2 if tier == "quick" else 3),
+                    {"corpus_argv_words": "0..=%d (up to twice as many items)" % nc, "lemma_items": "0..=%d" % (2 if tier == "quick" else 3),
                      "wrapper_items": "loops 0..=%d (6 representative inner failures), others 0..=%d (all 17 Message variants)" % ((1, 2) if tier == "quick" else (2, 3)),
                      "grammars": len(CORPUS_GRAMMARS)})
     from . import framework as fw
